@@ -726,6 +726,23 @@ func commentElementOK(lf *lexFacts, sk *ssa.Function, v ssa.Value) bool {
 	if commentSubstringOK(lf, sk, v) {
 		return true
 	}
+	// one of several results of a skipper helper (text, sawNewline)
+	if ex, ok := v.(*ssa.Extract); ok {
+		if hc, ok := ex.Tuple.(*ssa.Call); ok {
+			if h := hc.Call.StaticCallee(); h != nil && h != sk && lf.isSkipperFn(h) {
+				good, any := true, false
+				allInstrs(h, func(_ *ssa.BasicBlock, _ int, in ssa.Instruction) {
+					if ret, ok := in.(*ssa.Return); ok && ex.Index < len(ret.Results) {
+						any = true
+						if !commentElementOK(lf, h, unwrapDeferResult(ret.Results[ex.Index])) {
+							good = false
+						}
+					}
+				})
+				return good && any
+			}
+		}
+	}
 	call, ok := v.(*ssa.Call)
 	if !ok {
 		return false
@@ -750,6 +767,12 @@ func commentElementOK(lf *lexFacts, sk *ssa.Function, v ssa.Value) bool {
 		}
 		if commentSubstringOK(lf, sk, call.Call.Args[0]) {
 			return true
+		}
+		// TrimPrefix(input[a:position], "//") with a read on the first slash of the opener: the opener is cut off again
+		if tp, ok := call.Call.Args[0].(*ssa.Call); ok && tp.Call.StaticCallee() != nil && pkgPathOf(tp.Call.StaticCallee()) == "strings" && tp.Call.StaticCallee().Name() == "TrimPrefix" {
+			if k, ok := tp.Call.Args[1].(*ssa.Const); ok && k.Value != nil && k.Value.ExactString() == `"//"` && commentSubstringFromOpener(lf, sk, tp.Call.Args[0]) {
+				return true
+			}
 		}
 		call, ok = call.Call.Args[0].(*ssa.Call)
 		if !ok {
@@ -792,6 +815,27 @@ func commentElementOK(lf *lexFacts, sk *ssa.Function, v ssa.Value) bool {
 // commentSubstringOK: the comment text is input[a:position] where a is an earlier read of the cursor (the index of
 // the current byte) and, when the end is read, the current byte is the line end or the end of input: the text is then
 // exactly the bytes advanced over in between (only the advance primitive moves the cursor, R10.9).
+// commentSubstringFromOpener: like commentSubstringOK, and the start of the slice was read while the cursor stood on
+// the first slash of `//` (current and look-ahead byte are both '/'), so the slice begins with the opener.
+func commentSubstringFromOpener(lf *lexFacts, sk *ssa.Function, v ssa.Value) bool {
+	if !commentSubstringOK(lf, sk, v) {
+		return false
+	}
+	low := v.(*ssa.Slice).Low.(*ssa.UnOp)
+	cxs := lf.contextsOf(sk)
+	if len(cxs) == 0 {
+		return false
+	}
+	slash := setOf('/')
+	for _, cx := range cxs {
+		st := cx.before[low]
+		if st == nil || !st.live || st.cur != slash || st.peek != slash {
+			return false
+		}
+	}
+	return true
+}
+
 func commentSubstringOK(lf *lexFacts, sk *ssa.Function, v ssa.Value) bool {
 	sl, ok := v.(*ssa.Slice)
 	if !ok || sl.Low == nil || sl.High == nil || sl.Max != nil {
